@@ -107,8 +107,126 @@ def sym_empty(P, x: int) -> bool:
     return type(e) is RpcError
 
 
+# ---- classes registered by the harness itself (full identifiers, several protocols) and the from_response entry ----------------
+H_TOKENS = ['proto', 'PtHarness', 'PtOther', 'michelson_v1', 'bad_return', 'hcat', 'hname', 'zzfresh', 'script_rejected']
+H_KEYS = ['proto.PtHarness.michelson_v1.bad_return', 'proto.PtHarness.hcat.hname', 'hcat.hname', 'hname', 'hcat']
+
+
+def _with_harness_classes(fn):
+    """Registers one subclass per key of H_KEYS through the real __init_subclass__, runs fn(expected_table), unregisters."""
+    from pytezos.rpc.node import RpcError
+    import pytezos.rpc.errors  # noqa
+
+    before = dict(RpcError.__handlers__)
+    expected = dict(before)
+    made = []
+    try:
+        for i, key in enumerate(H_KEYS):
+            cls = type(f'Harness{i}', (RpcError,), {}, error_id=key)
+            made.append(cls)
+            expected[key] = cls
+        return fn(expected)
+    finally:
+        RpcError.__handlers__.clear()
+        RpcError.__handlers__.update(before)
+
+
+def _ref_table(error_id, table, base):
+    chunks = error_id.split('.')
+    cands = [error_id]
+    if chunks[0] == 'proto' and len(chunks) > 2:
+        cands.append('.'.join(chunks[2:]))
+    if len(chunks) > 1:
+        cands.append(chunks[-1])
+        cands.append(chunks[-2])
+    for c in cands:
+        if c in table:
+            return table[c]
+    return base
+
+
+def _run_registered(ncomp, idx):
+    from pytezos.rpc.node import RpcError
+
+    eid = '.'.join(H_TOKENS[i] for i in idx[:ncomp])
+
+    def body(expected):
+        e = RpcError.from_errors([{'id': 'proto.alpha.tez.decoy', 'kind': 'temporary'}, {'id': eid, 'kind': 'permanent'}])
+        exp = _ref_table(eid, expected, RpcError)
+        return type(e) is exp, eid, type(e).__name__, exp.__name__
+
+    return _with_harness_classes(body)
+
+
+def sym_registered(P, ex):
+    from harness import mbv
+
+    ncomp = mbv._choose(ex, 'ncomp', 1, 4)
+    idx = [mbv._choose(ex, f't{i}', 0, len(H_TOKENS) - 1) for i in range(ncomp)]
+    ok, eid, got, exp = _run_registered(ncomp, idx + [0] * 4)
+    if not ok:
+        ex.fail_here(f'{eid} mapped to {got}, expected {exp}')
+    ex.check(True)
+
+
+def conc_registered(P, w):
+    ncomp = int(w.get('ncomp', 1))
+    idx = [int(w.get(f't{i}', 0)) for i in range(4)]
+    ok, eid, got, exp = _run_registered(ncomp, idx)
+    return {'ok': ok, 'error_id': eid, 'observed': got, 'expected': exp}
+
+
+R_IDS = ['proto.alpha.michelson_v1.script_rejected', 'proto.alpha.michelson_v1.runtime_error', 'proto.alpha.michelson_v1.bad_return', 'node.zzfresh.unknown',
+         'proto.alpha.contract.balance_too_low']
+
+
+def _run_response(ids):
+    """RpcError.from_response on a JSON error body: the class is decided by the LAST error of the list as sent."""
+    from pytezos.rpc.node import RpcError
+    import pytezos.rpc.errors  # noqa
+
+    errors = [{'id': R_IDS[i], 'kind': 'permanent', 'pos': k} for k, i in enumerate(ids)]
+
+    class Resp:
+        status_code = 500
+        headers = {'content-type': 'application/json'}
+        text = '<body>'
+
+        def json(self):
+            return [dict(e) for e in errors]
+
+    e = RpcError.from_response(Resp())
+    exp = reference(errors[-1]['id']) if errors else RpcError
+    carried = e.args[0] if e.args else None
+    ok = type(e) is exp and (not errors or (isinstance(carried, dict) and carried.get('pos') == len(errors) - 1))
+    return ok, [x['id'] for x in errors], type(e).__name__, exp.__name__
+
+
+def sym_response(P, ex):
+    from harness import mbv
+
+    n = mbv._choose(ex, 'n', 1, P['max'])
+    ids = [mbv._choose(ex, f'e{i}', 0, len(R_IDS) - 1) for i in range(n)]
+    ok, lst, got, exp = _run_response(ids)
+    if not ok:
+        ex.fail_here(f'errors {lst} mapped to {got}, expected {exp} carrying the last error')
+    ex.check(True)
+
+
+def conc_response(P, w):
+    n = int(w.get('n', 1))
+    ok, lst, got, exp = _run_response([int(w.get(f'e{i}', 0)) for i in range(n)])
+    return {'ok': ok, 'errors': lst, 'observed': got, 'expected': exp}
+
+
 def obligations(tier):
     obs = []
+    obs.append(Ob(name='registered-by-harness/full-and-short-ids', engine='bvx', sym=sym_registered, concrete=conc_registered, P={}, timeout=300,
+                  bounds='classes registered on a full identifier, on category.name, on a name and on a category; looked-up identifiers of 1..4 components, each component chosen by the '
+                         f'solver among {len(H_TOKENS)} tokens (two protocols)', targets=TARGETS + ['pytezos.rpc.node.RpcError.__init_subclass__'], opts={'W': 16}))
+    obs.append(Ob(name='from_response/error-lists', engine='bvx', sym=sym_response, concrete=conc_response, P={'max': 3 if tier == 'quick' else 4}, timeout=300,
+                  bounds=f'JSON error bodies of 1..{3 if tier == "quick" else 4} errors, each identifier chosen by the solver among {len(R_IDS)} (repetitions included)',
+                  targets=TARGETS + ['pytezos.rpc.node.RpcError.from_response'], opts={'W': 16}))
     for form in FORMS:
         if form == 'P.C.N' and tier == 'quick':
             continue
